@@ -686,6 +686,68 @@ def run_self_contraction(chk, F):
            key='E12|Lazy_toplex_map::contraction|distinct')
 
 
+def run_contraction_exits_and_leftovers(chk, F):
+    """E7-contraction-exits: `contraction(x, y)` identifies two vertices of the complex whether or not they span an
+    edge: the lazy map leaves early only for an absent vertex or x == y (the conditions the eager map has or treats as
+    the identity) - every `return` before its loop sits under a test on `t0.count(..)` or on the equality of the two
+    arguments. E10-leftover-kept: what is left of an erased toplex after the vertex was taken out is re-inserted also
+    when it is a single vertex: a re-insertion in an erase-and-reinsert loop is not placed under a test on the size of
+    the simplex."""
+    fs = [f for f in F.functions if f.get('clsname') == 'Lazy_toplex_map' and f['name'] == 'contraction' and
+          f['inst'] in (0, 2) and f.get('body') is not None]
+    if len(fs) != 1:
+        raise AnalysisBroken('C16: Lazy_toplex_map::contraction not found')
+    f = fs[0]
+    a, b = f['params'][0]['n'], f['params'][1]['n']
+    par = ir.parents(f['body'])
+    loops = [x.get('l') or 0 for x in ir.walk(f['body']) if x.get('k') in ('CXXForRangeStmt', 'ForStmt')]
+    first_loop = min(loops) if loops else 10 ** 9
+    bad = None
+    n = 0
+    for r in ir.walk(f['body']):
+        if r.get('k') != 'ReturnStmt' or (r.get('l') or 0) > first_loop:
+            continue
+        up = par.get(id(r))
+        while up is not None and up.get('k') == 'CompoundStmt':
+            up = par.get(id(up))
+        n += 1
+        t = ir.show(up.get('cond')).replace(' ', '').replace('this->', '') if up is not None and up.get('k') == 'IfStmt' else ''
+        allowed = ('!t0.count(%s)' % a, '!t0.count(%s)' % b, '%s==%s' % (a, b), '%s==%s' % (b, a))
+        ok = t in allowed or t in tuple('(%s)' % z for z in allowed) or ('t0.find(' in t and '==t0.end()' in t)
+        if not ok and bad is None:
+            bad = (r, t)
+    chk.ob('E7-contraction-exits', 'Lazy_toplex_map::contraction leaves early only for an absent vertex or equal '
+           'arguments (%d early returns)' % n, '%s:%d' % (rel(f['file']), f['line']), bad is None,
+           '' if bad is None else 'line %s: `return` under `%s`: two vertices of the complex are not identified, the eager '
+           'map identifies them' % (bad[0].get('l'), bad[1][:60] or 'no test'),
+           key='E7|Lazy_toplex_map::contraction|exits')
+    k = 0
+    for f in F.functions:
+        if f.get('clsname') not in ('Toplex_map', 'Lazy_toplex_map') or f['inst'] not in (0, 2) or f.get('body') is None:
+            continue
+        for loop in ir.walk(f['body']):
+            if loop.get('k') != 'CXXForRangeStmt' or not ir.contains(loop.get('body'), lambda y: ir.is_call(y) and
+                                                                    ir.call_name(y) in ERASERS):
+                continue
+            parl = ir.parents(loop.get('body'))
+            for ins in ir.walk(loop.get('body')):
+                if not (ir.is_call(ins) and ir.call_name(ins) in INSERTERS):
+                    continue
+                k += 1
+                sized = None
+                cur = ins
+                while id(cur) in parl:
+                    cur = parl[id(cur)]
+                    if cur.get('k') == 'IfStmt' and re.search(r'size\(\)\s*(>|>=|!=|==)\s*\d', ir.show(cur.get('cond'))):
+                        sized = cur
+                chk.ob('E10-leftover-kept', '%s::%s: %s(...) of the leftover is not conditioned on its size' % (
+                    f['clsname'], f['name'], ir.call_name(ins)), '%s:%s' % (rel(f['file']), ins.get('l')), sized is None,
+                    '' if sized is None else '`%s` guards the re-insertion: a leftover of that size (a single vertex) is '
+                    'dropped with the toplex, the vertex leaves the complex' % ir.show(sized.get('cond'))[:50],
+                    key='E10|%s::%s|leftover-kept' % (f['clsname'], f['name']))
+    chk.expect_count('E10-leftover-kept', 're-insertions in erase-and-reinsert loops', k, 4)
+
+
 def run(tier, replay=None):
     chk = Check('C16', tier,
                 'Static decision of one information-flow clause of the toplex maps: in every loop over maximal '
@@ -754,6 +816,7 @@ def run(tier, replay=None):
     run_shared_immutable(chk, F)
     run_independent_order(chk, F)
     run_self_contraction(chk, F)
+    run_contraction_exits_and_leftovers(chk, F)
     chk.count('erase-and-reinsert loops', n_loops)
     chk.expect_count('E10-provenance', 'erase-and-reinsert loops', n_loops, 6)
     chk.assumptions += ['clang 14 parser', 'dependence is syntactic def-use over the loop body (sound over-approximation '
